@@ -452,6 +452,57 @@ func famM(seed int64, tier string, yield func(name string, f [][]int, n int) boo
 	return true
 }
 
+// famR: a seeded catalogue of nseeds random CNFs (2- and 3-literal clauses, 6..10 variables, clause
+// ratio around the satisfiability threshold), each followed by ALL its one-edit neighbours
+// (delete a clause, flip a literal, add a unit).
+func famR(seed int64, nseeds int, yield func(name string, f [][]int, n int) bool) bool {
+	g := &lcg{s: uint64(seed)*48271 + 11}
+	for sd := 0; sd < nseeds; sd++ {
+		n := 6 + int(g.next()%5)
+		m := 3*n + int(g.next()%uint64(2*n))
+		var f [][]int
+		for len(f) < m {
+			k := 2 + int(g.next()%2)
+			used := map[int]bool{}
+			var c []int
+			for len(c) < k {
+				v := 1 + int(g.next()%uint64(n))
+				if used[v] {
+					continue
+				}
+				used[v] = true
+				if g.next()&1 == 0 {
+					v = -v
+				}
+				c = append(c, v)
+			}
+			f = append(f, c)
+		}
+		name := fmt.Sprintf("R/seed%d", sd)
+		if !yield(name, copyCNF(f), n) {
+			return false
+		}
+		for i := range f {
+			if !yield(name+"-del", append(copyCNF(f[:i]), copyCNF(f[i+1:])...), n) {
+				return false
+			}
+			for j := range f[i] {
+				h := copyCNF(f)
+				h[i][j] = -h[i][j]
+				if !yield(name+"-flip", h, n) {
+					return false
+				}
+			}
+		}
+		for v := 1; v <= n; v++ {
+			if !yield(name+"-unit", append(copyCNF(f), []int{v}), n) || !yield(name+"-unit", append(copyCNF(f), []int{-v}), n) {
+				return false
+			}
+		}
+	}
+	return true
+}
+
 // dimacs renders a formula canonically.
 func dimacs(f [][]int, n int) string {
 	var sb strings.Builder
